@@ -139,6 +139,32 @@ Proof.
   destruct (a_code a =? 3); [exact H|]. destruct (_ && _); [exact H|]. apply add_attr_ok; assumption.
 Qed.
 
+(* ---- one attribute: no panic, and the collected attributes stay ok *)
+Lemma attr_one_spec tb s flags code c alen : attrs_ok s ->
+  nopanic (attr_one tb s flags code c alen) /\
+  forall s', attr_one tb s flags code c alen = Ok s' -> attrs_ok s'.
+Proof.
+  intro Hs. unfold attr_one.
+  destruct (seen s code).
+  { destruct (_ || _); [split; [exact I|discriminate]|]. split; [exact I|]. intros ? H. injection H as <-. exact Hs. }
+  assert (Hm : attrs_ok (mark_seen s code)) by exact Hs.
+  destruct (canonical_flags code) as [ef|] eqn:Ecf.
+  - set (fe := negb _).
+    assert (Hm2 : attrs_ok (if fe then add_err (mark_seen s code) code flags else mark_seen s code))
+      by (destruct fe; exact Hm).
+    remember (if fe then add_err (mark_seen s code) code flags else mark_seen s code) as sm eqn:Esm. clear Esm.
+    destruct (fe && _). { split; [exact I|]. intros ? H. injection H as <-. exact Hm2. }
+    destruct (Nat.ltb (length c) (nat_of alen)).
+    { split; [exact I|]. intros ? H. injection H as <-. destruct (_ || _); exact Hm2. }
+    destruct (attr_decode code flags _ tb) as [a|] eqn:Ed.
+    + split; [exact I|]. intros ? H. injection H as <-. apply accept_ok; [exact Hm2|]. eapply attr_decode_ok; eassumption.
+    + split; [exact I|]. intros ? H. injection H as <-. destruct (_ || _); exact Hm2.
+  - destruct (negb _). { split; [exact I|]. intros ? H. injection H as <-. exact Hm. }
+    destruct (has_flag flags FLAG_TRANSITIVE); [|split; [exact I|]; intros ? H; injection H as <-; exact Hm].
+    destruct (Nat.ltb _ _); [split; [exact I|discriminate]|].
+    split; [exact I|]. intros ? H. injection H as <-. apply add_attr_ok; [exact Hm|]. apply opaque_ok. exact Ecf.
+Qed.
+
 (* ---- the attribute walk: [arem] never exceeds what is left of the frame, so
    the unwrap()ed header reads succeed, and the collected attributes are ok *)
 Lemma attr_loop_spec tb : forall fuel c arem s,
@@ -153,61 +179,18 @@ Proof.
   destruct c as [|flags [|code c2]]; try (rewrite ?len_cons, ?len_nil in Hc; lia).
   cbn [get8 must bind].
   rewrite !len_cons in Hc. cbn [length] in Hf.
-  (* the length octet(s) *)
-  assert (Hstep : forall alen c3 arem3, (length c3 < f)%nat -> arem3 <= len c3 -> forall s3, attrs_ok s3 ->
-            nopanic (attr_loop f tb (skipn (nat_of alen) c3) (arem3 - alen) s3) /\
-            forall s' arem', attr_loop f tb (skipn (nat_of alen) c3) (arem3 - alen) s3 = Ok (s', arem') -> attrs_ok s').
-  { intros alen c3 arem3 Hf3 Hc3 s3 Hs3. apply IH; [rewrite skipn_length; lia| |exact Hs3].
-    rewrite len_skipn. unfold nat_of. lia. }
   assert (Hbody : forall alen c3 arem3, (length c3 < f)%nat -> arem3 <= len c3 ->
      let body :=
        if arem3 <? alen then Ok (s, N.max arem3 1) else
-       let skip := skipn (nat_of alen) c3 in
-       let arem' := arem3 - alen in
-       if seen s code then
-         if (code =? 14) || (code =? 15) then Fail MAL else attr_loop f tb skip arem' s
-       else
-         let s := mark_seen s code in
-         match canonical_flags code with
-         | Some expected =>
-           let flags_error := negb (N.land (N.lxor flags expected) 192 =? 0) in
-           let s := if flags_error then add_err s code flags else s in
-           if flags_error && negb ((code =? 14) || (code =? 15)) then attr_loop f tb skip arem' s
-           else match (if Nat.ltb (length c3) (nat_of alen) then None
-                       else attr_decode code flags (firstn (nat_of alen) c3) tb) with
-                | Some a => attr_loop f tb skip arem' (accept tb s a)
-                | None => attr_loop f tb skip arem' (if (code =? 17) || (code =? 18) then s else add_err s code flags)
-                end
-         | None =>
-           if negb (has_flag flags FLAG_OPTIONAL) then attr_loop f tb skip arem' (add_err s code flags)
-           else if has_flag flags FLAG_TRANSITIVE then
-             if Nat.ltb (length c3) (nat_of alen) then Fail MAL
-             else attr_loop f tb skip arem'
-                    (add_attr s {| a_code := code; a_flags := flags; a_data := AOpaque (firstn (nat_of alen) c3) |})
-           else attr_loop f tb skip arem' s
-         end in
+       s' <- attr_one tb s flags code c3 alen ;;
+       attr_loop f tb (skipn (nat_of alen) c3) (arem3 - alen) s' in
      nopanic body /\ forall s' arem', body = Ok (s', arem') -> attrs_ok s').
   { intros alen c3 arem3 Hf3 Hc3. cbv zeta.
-    destruct (arem3 <? alen). { split; [exact I|]. intros ? ? H. injection H as <- _. exact Hs. }
-    destruct (seen s code).
-    { destruct (_ || _); [split; [exact I|discriminate]|]. apply Hstep; assumption. }
-    assert (Hm : attrs_ok (mark_seen s code)) by exact Hs.
-    destruct (canonical_flags code) as [ef|] eqn:Ecf.
-    - set (fe := negb _).
-      assert (Hm2 : attrs_ok (if fe then add_err (mark_seen s code) code flags else mark_seen s code))
-        by (destruct fe; exact Hm).
-      remember (if fe then add_err (mark_seen s code) code flags else mark_seen s code) as sm eqn:Esm. clear Esm.
-      destruct (fe && _). { apply Hstep; assumption. }
-      clear Hm. rename Hm2 into Hm.
-      destruct (Nat.ltb (length c3) (nat_of alen)).
-      { apply Hstep; try assumption. destruct (_ || _); exact Hm. }
-      destruct (attr_decode code flags _ tb) as [a|] eqn:Ed.
-      + apply Hstep; try assumption. apply accept_ok; [exact Hm|]. eapply attr_decode_ok; eassumption.
-      + apply Hstep; try assumption. destruct (_ || _); exact Hm.
-    - destruct (negb _). { apply Hstep; assumption. }
-      destruct (has_flag flags FLAG_TRANSITIVE); [|apply Hstep; assumption].
-      destruct (Nat.ltb _ _); [split; [exact I|discriminate]|].
-      apply Hstep; try assumption. apply add_attr_ok; [exact Hm|]. apply opaque_ok. exact Ecf. }
+    destruct (arem3 <? alen) eqn:Ea. { split; [exact I|]. intros ? ? H. injection H as <- _. exact Hs. }
+    destruct (attr_one_spec tb s flags code c3 alen Hs) as [Np Hr].
+    destruct (attr_one tb s flags code c3 alen) as [s1| |]; cbn [bind]; [|split; [exact I|discriminate]|destruct Np].
+    apply IH; [rewrite skipn_length; lia| |apply Hr; reflexivity].
+    rewrite len_skipn. unfold nat_of. lia. }
   destruct (has_flag flags FLAG_EXTENDED).
   - destruct (arem - 2 <? 2) eqn:E3; cbn [bind].
     { split; [exact I|]. intros ? ? H. injection H as <- _. exact Hs. }
@@ -316,67 +299,99 @@ Section UpdateFacts.
   Variable other_nlri : N -> bool -> list N -> option (list N).
   Hypothesis other_consumes : forall f r c c', other_nlri f r c = Some c' -> len c' < len c.
 
-  Lemma parse_update_nopanic cd hdr frame : nopanic (parse_update other_nlri cd hdr frame).
+  (* what upd_locate establishes about the three parts *)
+  Lemma upd_locate_spec hdr frame :
+    nopanic (upd_locate hdr frame) /\
+    forall wl wd c al, upd_locate hdr frame = Ok (wl, wd, c, al) ->
+      al <= len c /\ length wd = nat_of wl /\ len frame = 23 + wl + len c.
   Proof.
-    unfold parse_update.
-    destruct (len frame <? 23) eqn:E23; [exact I|].
+    unfold upd_locate.
+    destruct (len frame <? 23) eqn:E23; [split; [exact I|discriminate]|].
     pose proof (len_skipn 19 frame) as Hs.
     remember (skipn 19 frame) as body eqn:Hb. clear Hb.
     destruct body as [|w1 [|w2 c]]; try (rewrite ?len_cons, ?len_nil in Hs; lia).
     cbn [get16 must bind]. rewrite !len_cons in Hs.
-    destruct (len frame <? be16 w1 w2 + 23) eqn:Ewl; [exact I|].
+    destruct (len frame <? be16 w1 w2 + 23) eqn:Ewl; [split; [exact I|discriminate]|].
     set (wl := be16 w1 w2) in *.
-    destruct (get16 (skipn (nat_of wl) c)) as [[al c2]|] eqn:Gal; cbn [rm req bind]; [|exact I].
+    destruct (get16 (skipn (nat_of wl) c)) as [[al c2]|] eqn:Gal; cbn [rm req bind]; [|split; [exact I|discriminate]].
     apply get16_some in Gal. rewrite len_skipn in Gal.
-    destruct (len frame <? wl + al + 23) eqn:Eal; [exact I|].
-    destruct (attr_loop_spec (c_two_byte cd) (S (length c2)) c2 al u0 ltac:(lia)
-                ltac:(unfold nat_of in *; lia) ltac:(constructor)) as [Np Hr].
+    destruct (len frame <? wl + al + 23) eqn:Eal; [split; [exact I|discriminate]|].
+    split; [exact I|]. intros ? ? ? ? H. injection H as <- <- <- <-.
+    rewrite firstn_length. pose proof (len_length c). unfold nat_of in *. repeat split; lia.
+  Qed.
+
+  Lemma upd_mp_reach_nopanic cd d : nopanic (upd_mp_reach other_nlri cd d).
+  Proof.
+    unfold upd_mp_reach.
+    destruct (len d <? 5) eqn:E5; [exact I|].
+    destruct d as [|d1 [|d2 [|d3 [|d4 d]]]]; try (rewrite ?len_cons, ?len_nil in E5; lia).
+    cbn [get16 get8 must bind].
+    apply np_bind; [apply np_req|]. intros ap _.
+    destruct (len _ <? 5 + d4) eqn:En; [exact I|].
+    apply np_bind.
+    { repeat match goal with |- nopanic (if ?b then _ else _) => destruct b end; exact I. }
+    intros nh _.
+    destruct (get8 (skipn (nat_of d4) d)) as [[rsv d5]|] eqn:Gr.
+    - cbn [must bind]. apply np_bind; [apply nlri_list_nopanic; exact other_consumes|]. intros; exact I.
+    - apply get8_none in Gr. rewrite len_skipn in Gr. rewrite !len_cons in En. unfold nat_of in *. lia.
+  Qed.
+
+  Lemma upd_mp_unreach_nopanic cd d : nopanic (upd_mp_unreach other_nlri cd d).
+  Proof.
+    unfold upd_mp_unreach.
+    destruct (len d <? 3) eqn:E3; [exact I|].
+    destruct d as [|d1 [|d2 [|d3 d]]]; try (rewrite ?len_cons, ?len_nil in E3; lia).
+    cbn [get16 get8 must bind].
+    apply np_bind; [apply np_req|]. intros ap _.
+    apply np_bind; [apply nlri_list_nopanic; exact other_consumes|]. intros; exact I.
+  Qed.
+
+  Lemma upd_finish_nopanic cd s reach unreach mp_reach mp_unreach :
+    attrs_ok s -> nopanic (upd_finish cd s reach unreach mp_reach mp_unreach).
+  Proof.
+    intro Hs. unfold upd_finish.
+    assert (Hrec : nopanic (if c_two_byte cd then reconcile_as4 (u_attrs s) else Ok (u_attrs s))).
+    { destruct (c_two_byte cd); [|exact I]. apply reconcile_as4_nopanic. exact Hs. }
+    destruct mp_unreach as [[fam [|e es]]|].
+    - destruct (_ && _); [exact I|]. apply np_bind; [exact Hrec|]. intros; exact I.
+    - apply np_bind; [exact Hrec|]. intros; exact I.
+    - apply np_bind; [exact Hrec|]. intros; exact I.
+  Qed.
+
+  Lemma post_errs_attrs rl arem s : u_attrs (post_errs rl arem s) = u_attrs s.
+  Proof. unfold post_errs. repeat match goal with |- context [if ?b then _ else _] => destruct b end; reflexivity. Qed.
+
+  Lemma parse_update_nopanic cd hdr frame : nopanic (parse_update other_nlri cd hdr frame).
+  Proof.
+    unfold parse_update.
+    destruct (upd_locate_spec hdr frame) as [Npl Hl].
+    apply np_bind; [exact Npl|]. intros [[[wl wd] c] al] El.
+    destruct (Hl _ _ _ _ El) as (Hal & Hwd & Hlen).
+    destruct (attr_loop_spec (c_two_byte cd) (S (length c)) c al u0 ltac:(lia) Hal ltac:(constructor)) as [Np Hr].
     apply np_bind; [exact Np|]. intros [s arem] Eloop. specialize (Hr _ _ Eloop).
     destruct (_ && _); [exact I|].
-    (* the error bookkeeping does not touch u_attrs *)
-    remember (post_errs (len frame - (23 + wl + al)) arem s) as s2 eqn:Hs2.
-    assert (Hu : u_attrs s2 = u_attrs s).
-    { subst s2. unfold post_errs. repeat match goal with |- context [if ?b then _ else _] => destruct b end; reflexivity. }
-    clear Hs2.
+    assert (Hu : attrs_ok (post_errs (len frame - (23 + wl + al)) arem s)).
+    { unfold attrs_ok. rewrite post_errs_attrs. exact Hr. }
+    remember (post_errs (len frame - (23 + wl + al)) arem s) as s2 eqn:Hs2. clear Hs2.
     apply np_bind.
     { destruct (negb _); [|exact I]. apply np_bind; [apply np_req|]. intros ap _.
       apply nlri_list_nopanic. exact other_consumes. }
     intros reach _.
     apply np_bind.
     { destruct (0 <? wl) eqn:Ew0; [|exact I]. apply np_bind; [apply np_req|]. intros ap _.
-      destruct (Nat.ltb _ _) eqn:El.
-      - apply PeanoNat.Nat.ltb_lt in El. rewrite firstn_length in El. unfold nat_of in *.
-        pose proof (len_length c). lia.
+      destruct (Nat.ltb _ _) eqn:Elt.
+      - apply PeanoNat.Nat.ltb_lt in Elt. lia.
       - apply nlri_list_nopanic. exact other_consumes. }
     intros unreach _.
     apply np_bind.
     { destruct (u_mp_reach s2) as [d|]; [|exact I].
-      destruct (len d <? 5) eqn:E5; [exact I|].
-      destruct d as [|d1 [|d2 [|d3 [|d4 d]]]]; try (rewrite ?len_cons, ?len_nil in E5; lia).
-      cbn [get16 get8 must bind].
-      apply np_bind; [apply np_req|]. intros ap _.
-      destruct (len _ <? 5 + d4) eqn:En; [exact I|].
-      apply np_bind.
-      { repeat match goal with |- nopanic (if ?b then _ else _) => destruct b end; exact I. }
-      intros nh _.
-      destruct (get8 (skipn (nat_of d4) d)) as [[rsv d5]|] eqn:Gr.
-      - cbn [must bind]. apply np_bind; [apply nlri_list_nopanic; exact other_consumes|]. intros; exact I.
-      - apply get8_none in Gr. rewrite len_skipn in Gr. rewrite !len_cons in En. unfold nat_of in *. lia. }
+      apply np_bind; [apply upd_mp_reach_nopanic|]. intros; exact I. }
     intros mp_reach _.
     apply np_bind.
     { destruct (u_mp_unreach s2) as [d|]; [|exact I].
-      destruct (len d <? 3) eqn:E3; [exact I|].
-      destruct d as [|d1 [|d2 [|d3 d]]]; try (rewrite ?len_cons, ?len_nil in E3; lia).
-      cbn [get16 get8 must bind].
-      apply np_bind; [apply np_req|]. intros ap _.
-      apply np_bind; [apply nlri_list_nopanic; exact other_consumes|]. intros; exact I. }
+      apply np_bind; [apply upd_mp_unreach_nopanic|]. intros; exact I. }
     intros mp_unreach _.
-    assert (Hrec : nopanic (if c_two_byte cd then reconcile_as4 (u_attrs s2) else Ok (u_attrs s2))).
-    { destruct (c_two_byte cd); [|exact I]. apply reconcile_as4_nopanic. rewrite Hu. exact Hr. }
-    destruct mp_unreach as [[fam [|e es]]|].
-    - destruct (_ && _); [exact I|]. apply np_bind; [exact Hrec|]. intros; exact I.
-    - apply np_bind; [exact Hrec|]. intros; exact I.
-    - apply np_bind; [exact Hrec|]. intros; exact I.
+    apply upd_finish_nopanic. exact Hu.
   Qed.
 End UpdateFacts.
 
